@@ -169,6 +169,9 @@ func (g *Gen) stdModel(v ssa.Value, name string, c *ssa.CallCommon, in ssa.Instr
 		used()
 		g.lockOp(c.Args[0], strings.HasSuffix(name, "RUnlock"), false, st, reach, in)
 		return true
+	case "sort.Slice":
+		used()
+		return g.sortSlice(c, in, st, reach)
 	case "sort.Search":
 		used()
 		return g.sortSearch(v, c, in, st, reach)
@@ -355,4 +358,74 @@ func (g *Gen) sortSearch(v ssa.Value, c *ssa.CallCommon, in ssa.Instruction, st 
 	g.assume(app("=>", reach, fmt.Sprintf("(forall ((j!q Int)) (=> (and (<= 0 j!q) (< j!q %s)) %s))", r.S, not(pred("j!q")))))
 	g.assume(app("=>", reach, fmt.Sprintf("(forall ((j!q Int)) (=> (and (<= %s j!q) (< j!q %s)) %s))", r.S, n.S, pred("j!q"))))
 	return true
+}
+
+// sortSlice: sort.Slice(x, less) permutes the elements of x in place. Assumed: the length is
+// unchanged, the contents of the slice's window are havocked (a permutation of the old ones:
+// stated by the per-call-site spec predicate "sorted_perm_<elem>" when the spec library has
+// one), every other object is untouched.
+func (g *Gen) sortSlice(c *ssa.CallCommon, in ssa.Instruction, st State, reach string) bool {
+	mi, ok := c.Args[0].(*ssa.MakeInterface)
+	if !ok {
+		return false
+	}
+	x := g.val(mi.X)
+	el, elT := g.elemOf(mi.X.Type())
+	if el == nil || x.So.K != KSlice {
+		return false
+	}
+	hn := g.elemHeapName(elT)
+	hso := g.elemHeapSort(el)
+	h := g.stGet(st, hn, hso)
+	arrSort := &Sort{K: KRaw, Name: "(Array Int " + el.Name + ")"}
+	na := g.fresh("sorted", arrSort)
+	old := app("select", h, app("s_obj", x.S))
+	pid := g.nfresh
+	g.emit(fmt.Sprintf("(declare-fun perm!%d (Int) Int)", pid))
+	// outside the window nothing changes
+	g.assume(fmt.Sprintf("(forall ((j!q Int)) (! (=> (or (< j!q (s_off %s)) (>= j!q (+ (s_off %s) (s_len %s)))) (= (select %s j!q) (select %s j!q))) :pattern ((select %s j!q))))", x.S, x.S, x.S, na, old, na))
+	// permutation: every new element is an old element of the window
+	g.assume(fmt.Sprintf("(forall ((j!q Int)) (! (=> (and (<= (s_off %s) j!q) (< j!q (+ (s_off %s) (s_len %s)))) (and (<= (s_off %s) (perm!%d j!q)) (< (perm!%d j!q) (+ (s_off %s) (s_len %s))) (= (select %s j!q) (select %s (perm!%d j!q))))) :pattern ((select %s j!q))))",
+		x.S, x.S, x.S, x.S, pid, pid, x.S, x.S, na, old, pid, na))
+	g.recordWrite(hn, mi.X)
+	g.stSet(st, hn, hso, app("store", h, app("s_obj", x.S), na))
+	g.sortedFacts(c, x, na, old, el, elT, st, reach)
+	return true
+}
+
+// sortedFacts: the closure's contract clause labelled "less" (over i, j and captured variables)
+// gives the order; after the call no adjacent pair is out of order.
+func (g *Gen) sortedFacts(c *ssa.CallCommon, x T, na, old string, el *Sort, elT types.Type, st State, reach string) {
+	mc, ok := c.Args[1].(*ssa.MakeClosure)
+	if !ok {
+		return
+	}
+	fn := mc.Fn.(*ssa.Function)
+	ct := g.cs.Funcs[g.prog.contractKeyOfFunc(fn)]
+	if ct == nil {
+		g.note("sort.Slice comparison %s has no contract: only 'permutation' is assumed", fn.Name())
+		return
+	}
+	vars := map[string]T{}
+	g.closureVars(&ssa.CallCommon{Value: mc}, st, vars)
+	less := func(i, j string) string {
+		vs := map[string]T{}
+		for k, t := range vars {
+			vs[k] = t
+		}
+		vs[fn.Params[0].Name()] = T{S: i, So: SInt}
+		vs[fn.Params[1].Name()] = T{S: j, So: SInt}
+		var out []string
+		for _, cl := range ct.Ensures {
+			if cl.Label != "less" {
+				continue
+			}
+			env := g.envAt(st, st, g.pkg, vs)
+			t := env.compileBool(cl.Expr)
+			g.reportSpecErrors(env, cl)
+			out = append(out, t.S)
+		}
+		return and(out...)
+	}
+	g.assume(app("=>", reach, fmt.Sprintf("(forall ((a!q Int) (b!q Int)) (=> (and (<= 0 a!q) (< a!q b!q) (< b!q (s_len %s))) (not %s)))", x.S, less("b!q", "a!q"))))
 }
